@@ -4,7 +4,7 @@ from __future__ import annotations
 import json
 
 from ..core import (numpy, numpoly, run_driver, poly_to_struct, den_of_struct, den_key, err_kind, wf_problems,
-                    coef_json, coef_from_json, exact_to_py)
+                    coef_json, coef_from_json, exact_to_py, struct_to_poly)
 from .. import gen, catalogue
 
 RULE = ("(a) attribute triples (redundant zero terms, unused names, unsorted rows, duplicate rows/names, wrong counts) "
@@ -123,10 +123,36 @@ def regenerate_problems(p):
                                             retain_coefficients=True, retain_names=True), "attributes")
         same(numpoly.aspolynomial(p.values, names=p.names), "values+names")
         if p.size:
-            same(numpoly.polynomial(p.todict(), names=p.names, dtype=p.dtype), "todict")
+            # no dtype argument: the dictionary's values carry the coefficient dtype themselves
+            same(numpoly.polynomial(p.todict(), names=p.names), "todict")
     except Exception as err:  # noqa: BLE001
         probs.append(f"regeneration raised {type(err).__name__}: {str(err)[:120]}")
     return probs
+
+
+def run_dtypes(ctx):
+    """regeneration for every numeric coefficient dtype (the catalogue's operands are int64/float64)"""
+    rng = ctx.rng("dtypes")
+    from ..core import DTYPES
+    for dt in DTYPES:
+        for shape in [(), (), (2,), (1, 2)]:
+            kind = "complex" if dt.startswith("complex") else "float" if dt.startswith("float") else "int"
+            s = gen.gen_struct(rng, shape=shape, kind=kind, nterms=int(rng.integers(1, 4)), maxexp=2, lim=1 if dt == "bool" else 3)
+            if dt == "bool" or dt.startswith("uint"):
+                for t in s["terms"]:
+                    t[1] = [abs(int(x)) % (2 if dt == "bool" else 100) if isinstance(x, int) else x for x in t[1]]
+            s["dtype"] = dt
+            case = {"kind": "dtype-regenerate", "a": s}
+            try:
+                p = struct_to_poly(s, dtype=dt)
+            except Exception as err:  # noqa: BLE001
+                ctx.fail(case, f"constructing a {dt} polynomial raised {type(err).__name__}: {str(err)[:100]}", [f"dtype:{dt}", "raises"])
+                continue
+            ctx.evaluations += 1
+            ctx.count("dtype-regenerate")
+            rp = regenerate_problems(p)
+            if rp:
+                ctx.fail(case, f"{dt} polynomial of shape {shape} does not regenerate: {rp}", [f"dtype:{dt}", "regenerate"])
 
 
 def run_catalogue(ctx):
@@ -175,10 +201,14 @@ def run(ctx):
         check_attrs(ctx, c, ans)
     ctx.sample({"attrs": {k: cases[0][k] for k in ("names", "expos", "cols", "shape", "rc", "rn")}, "model": {k: v for k, v in answers[0].items() if k != "id"}})
     run_catalogue(ctx)
+    run_dtypes(ctx)
 
 
 def replay(ctx, case):
     n = len(ctx.failures)
+    if case["kind"] == "dtype-regenerate":
+        rp = regenerate_problems(struct_to_poly(case["a"], dtype=case["a"]["dtype"]))
+        return str(rp) if rp else None
     if case["kind"] == "attrs":
         check_attrs(ctx, case, run_driver([attr_driver(case)])[0])
     else:
